@@ -29,7 +29,7 @@ BUDGET = {
     'thorough': dict(examples=80000, time_s=2400, fuzz=dict(workers=8, runs=6000, max_s=300)),
 }
 
-OPS = ['cols', 'cols', 'rows', 'to_rfi', 'to_mef', 'start_end', 'high_low', 'one_event', 'one_channel']
+OPS = ['cols', 'cols', 'rows', 'to_rfi', 'to_mef', 'start_end', 'high_low', 'one_event', 'one_channel', 'read_time', 'no_channels']
 DUPS = ['copy', 'copy.copy', 'deepcopy', 'view'] + ['pickle%d' % p for p in range(6)]
 
 
@@ -48,10 +48,13 @@ def _case(draw):
         spec = draw(sample_spec(min_d=1, max_d=3, min_n=1, max_n=8))
         return dict(arm='file', spec=spec, change=draw(st.sampled_from(['event', 'keyword', 'new_keyword', 'analysis'])),
                     row=draw(st.integers(0, 7)), col=draw(st.integers(0, 2)))
-    spec = draw(sample_spec(min_d=1, max_d=5, min_n=0, max_n=25))
+    spec = draw(sample_spec(min_d=1, max_d=5, min_n=0, max_n=25, with_time=True))
+    if draw(st.booleans()) and 'Time' not in spec['names']:
+        spec['names'][-1] = 'Time'             # (half of the samples have a time channel)
+    every = draw(st.booleans())                # all acquisition keywords together, or each on its own coin
     spec['extra'] = [[k, v] for k, v in (('$BTIM', '12:30:05'), ('$ETIM', '12:31:45.50'), ('$DATE', '05-MAR-2021'),
                                           ('$TIMESTEP', '0.01' if spec['data_seed'] % 3 else '0'), ('CUSTOM', 'x/y'))
-                     if draw(st.booleans())]
+                     if every or draw(st.booleans())]
     if draw(st.booleans()):
         spec['analysis'] = [['GATE1', '0.5']]
     spec['path_form'] = draw(st.sampled_from([None, None, None, 'dslash', 'dot', 'updown']))   # how the file was named
@@ -69,18 +72,29 @@ def apply_op(d, op):
     if d.ndim != 2:
         return d, 'skipped'
     N, D = d.shape
+    if D == 0 and op['op'] not in ('rows', 'start_end', 'no_channels', 'read_time'):
+        return d, 'skipped'                    # (nothing to pick a channel from)
     names = list(d.channels)
     cols = []
-    for p in op['pick']:
+    for p in (op['pick'] if D else []):
         if p % D not in cols or (op['op'] == 'cols' and op.get('repeat')):
             cols.append(p % D)
     chs = [names[j] if op['by_name'] else j for j in cols]
     k = op['op']
+    if op['b'] % 2 == 0:
+        call(lambda: d.acquisition_time)       # reading a derived quantity in between changes nothing
     if k == 'cols':
         return d[:, chs], 'cols_reordered' if cols != sorted(cols) else 'cols'
     if k == 'one_event':
         # a single event taken with an integer index: one-dimensional, still all channels
         return (d[op['a'] % N], 'one_event') if N else (d, 'skipped')
+    if k == 'read_time':
+        # reading a derived quantity is no change of state (but what follows must not depend on it having been read)
+        call(lambda: d.acquisition_time)
+        return d, 'read_time'
+    if k == 'no_channels':
+        # a selection that keeps no channel is still a sample (N x 0)
+        return (d[:, []] if op['by_name'] else d[:, 0:0]), 'no_channels'
     if k == 'one_channel':
         return d[:, chs[0]], 'one_channel'          # a single channel: one-dimensional, one channel
     if k == 'rows':
